@@ -134,6 +134,14 @@ fn fees_part(s: &mut Scen, rng: &mut Rng, rep: &mut Report) {
         let amt = 1 + rng.below(have);
         let mk = |signer: Pubkey, d: Pubkey| if is_fee { ix::withdraw_fees(&h, signer, d, amt) } else { ix::withdraw_insurance(&h, signer, d, amt) };
         must_fail(s, &mk(stranger, stranger_ata), &format!("{}-vault draw-down signed by a non-admin", name), rep);
+        // somebody who administers a group of HIS OWN passes that group: the vault belongs to a bank of another group
+        {
+            let own_group = s.w.add_group(stranger);
+            let foreign = crate::world::fixtures::BankHandle { group: own_group, ..h };
+            let f = if is_fee { ix::withdraw_fees(&foreign, stranger, stranger_ata, amt) } else { ix::withdraw_insurance(&foreign, stranger, stranger_ata, amt) };
+            must_fail(s, &f, &format!("{}-vault draw-down signed by the admin of ANOTHER group (passed as the group)", name), rep);
+            must_fail(s, &ix::update_fees_destination(&foreign, stranger, stranger_ata), "fees destination set by the admin of ANOTHER group (passed as the group)", rep);
+        }
         must_fail(s, &mk(s.users[0].wallet, s.users[0].toks[b]), &format!("{}-vault draw-down signed by a user", name), rep);
         let mut hw = h;
         if is_fee { hw.fee_vault = ho.fee_vault } else { hw.insurance_vault = ho.insurance_vault };
